@@ -231,6 +231,14 @@ impl Exec {
         self.vals.entry(b.clone()).or_insert((v.len as i64, v.tag as i64));
         b
     }
+    /// two values with the same bytes are the same value: use the first (len, tag) seen for those bytes
+    pub fn canon(&mut self, op: Op) -> Op {
+        let mut c = |v: Val| -> Val { let b = value_bytes(v); let e = self.vals.entry(b).or_insert((v.len as i64, v.tag as i64)); Val { len: e.0 as u32, tag: e.1 as u32 } };
+        match op {
+            Op::Ins(k, v) => Op::Ins(k, c(v)), Op::Iine(k, v) => Op::Iine(k, c(v)),
+            Op::App(k, v) => Op::App(k, c(v)), Op::Upd(k, v) => Op::Upd(k, c(v)), o => o,
+        }
+    }
     fn vback(&self, b: &[u8]) -> (i64, i64) { self.vals.get(b).copied().unwrap_or((b.len() as i64, -1)) }
     fn conv(&self, o: Out) -> Obs {
         match o {
